@@ -160,6 +160,16 @@ package drpchttp
 //@   site NewStream assume [fallback-present] arg0 != nil
 //@   check [C14.finish-once] eventCount("invoke:Finish") == 1 && eventCount("invoke:HandleRPC") == 1 && eventAfterLast("invoke:HandleRPC", "invoke:Finish")
 
+// Every handler gets its own protocol table (WithProtocol writes into it), with the fallback entry
+// and the five documented content types.
+//@ func defaultProtocols
+//@   props C14
+//@   modifies maps
+//@   ensures [C14.own-table] fresh(result)
+//@   ensures [C14.fallback]  haskey(result, "*") && result["*"] != nil
+//@   ensures [C14.content-types] haskey(result, "application/proto") && haskey(result, "application/json") && haskey(result, "application/grpc-web+proto") && haskey(result, "application/grpc-web+json") && haskey(result, "application/grpc-web-text+proto") && haskey(result, "application/grpc-web-text+json")
+//@   ensures [C14.protocol-kinds] typeIs(result["*"], twirpProtocol) && typeIs(result["application/proto"], twirpProtocol) && typeIs(result["application/json"], twirpProtocol) && typeIs(result["application/grpc-web+proto"], grpcWebProtocol) && typeIs(result["application/grpc-web-text+proto"], grpcWebProtocol)
+
 //@ extern storj.io/drpc/drpchttp.Protocol.NewStream(recv, rw, req) (st Stream)
 //@   ensures st != nil
 //@ func (grpcWebProtocol).NewStream
